@@ -102,7 +102,7 @@ func vC13RunHandshake(c vSx) (cout vSx, obs vSx, oracle string) {
 		switch {
 		case err == nil:
 			outcome = 0
-			z = cc.newCompressionWriter != nil
+			z = vC13HasCompW(cc)
 			if tamper == 7 && !z {
 				oracle = "extension accepted by the server but compression not enabled on the client"
 			}
